@@ -57,6 +57,8 @@ pub struct MemLoader<'a> {
     pub calls: Vec<Value>,
     /// run the real compiler in `compile` (otherwise only record the call)
     pub real_compile: bool,
+    /// run only name resolution (hook H2) instead of all compilation phases
+    pub resolve_only: bool,
 }
 
 impl Loader<HErr> for MemLoader<'_> {
@@ -98,7 +100,11 @@ impl Loader<HErr> for MemLoader<'_> {
 
     fn compile(&mut self, mods: &ModuleSet, l: &Locator) -> Result<(), HErr> {
         self.calls.push(json!(["compile", l.url().as_str()]));
-        if self.real_compile {
+        if self.resolve_only {
+            oal_compiler::verif::resolve(mods, l)
+                .map(|_| ())
+                .map_err(HErr::Compiler)
+        } else if self.real_compile {
             oal_compiler::compile::compile(mods, l).map_err(HErr::Compiler)
         } else {
             Ok(())
@@ -123,6 +129,7 @@ pub fn load(case: &Value) -> Value {
         files: &files,
         calls: Vec::new(),
         real_compile: case["real_compile"].as_bool().unwrap_or(false),
+        resolve_only: false,
     };
     let res = oal_compiler::module::load(&mut loader, &main);
     let result = match &res {
